@@ -149,6 +149,16 @@ NAMES = ["data", "ctx", "t", None, None]
 def _gen_layer(rng, depth, LM, registry):
     if depth <= 0 or rng.random() < 0.6:
         d = {k: rng.randrange(100) for k in rng.sample(KEYS, rng.randrange(0, 4))}
+        r = rng.random()
+        if r < 0.12:                      # mappings that answer missing keys themselves when asked with [] (they still do not CONTAIN them)
+            import collections
+            d = collections.defaultdict(int, d)
+        elif r < 0.2:
+            import collections
+            d = collections.Counter(d)
+        elif r < 0.26:
+            import collections
+            d = collections.OrderedDict(d)
         registry.append((d, dict(d)))
         return d
     return _gen_lm(rng, depth - 1, LM, registry)
